@@ -146,8 +146,9 @@ def find_function(tree, qualname):
     return node
 
 
-def function_literals(modname, src, tree, names, qualname, out, index):
-    """All numeric literals of a function body in source order: <mod>__<fn>_L<i>."""
+def function_literals(modname, src, tree, names, qualname, out, index, nat=False):
+    """All numeric literals of a function body in source order: <mod>__<fn>_L<i>
+    (with nat=True additionally `<mod>__<fn>_L<i>_N : Nat` for pure integer literals)."""
     fn = find_function(tree, qualname)
     lits = []
     for n in ast.walk(fn):
@@ -161,12 +162,24 @@ def function_literals(modname, src, tree, names, qualname, out, index):
         texts.append(text)
         out.append("def %s_L%d : α := %s   -- line %d `%s`" % (base, i, lit_to_lean(text), n.lineno, text))
         index.append("%s_L%d" % (base, i))
+        if nat and re.fullmatch(r"[0-9]+", text.replace("_", "")):
+            out.append("def %s_L%d_N : Nat := %d" % (base, i, int(text.replace("_", ""))))
     out.append("def %s_count : Nat := %d" % (base, len(lits)))
     return texts
 
 
-def function_locals(modname, src, tree, names, qualname, out, index, wanted=None):
-    """Constant-valued local assignments and numeric parameter defaults: <mod>__<fn>__<name>."""
+def _nat_literal(src, node):
+    """The value of an AST node that is a pure non-negative integer literal, else None."""
+    if isinstance(node, ast.Constant) and isinstance(node.value, int) and not isinstance(node.value, bool):
+        text = (ast.get_source_segment(src, node) or "").replace("_", "")
+        if re.fullmatch(r"[0-9]+", text):
+            return int(text)
+    return None
+
+
+def function_locals(modname, src, tree, names, qualname, out, index, wanted=None, nat=False):
+    """Constant-valued local assignments and numeric parameter defaults: <mod>__<fn>__<name>
+    (with nat=True additionally `<mod>__<fn>__<name>_N : Nat` when the value is a pure integer literal)."""
     fn = find_function(tree, qualname)
     base = "%s__%s" % (modname, lean_ident(qualname))
     local = dict(names)
@@ -181,6 +194,8 @@ def function_locals(modname, src, tree, names, qualname, out, index, wanted=None
             continue
         lname = "%s__%s" % (base, a.arg)
         out.append("def %s : α := %s   -- default of `%s`" % (lname, term, a.arg))
+        if nat and _nat_literal(src, d) is not None:
+            out.append("def %s_N : Nat := %d" % (lname, _nat_literal(src, d)))
         local[a.arg] = lname
         index.append(lname)
     seen = set()
@@ -196,6 +211,8 @@ def function_locals(modname, src, tree, names, qualname, out, index, wanted=None
             seen.add(name)
             lname = "%s__%s" % (base, lean_ident(name))
             out.append("def %s : α := %s   -- line %d" % (lname, term, node.lineno))
+            if nat and _nat_literal(src, node.value) is not None:
+                out.append("def %s_N : Nat := %d" % (lname, _nat_literal(src, node.value)))
             local[name] = lname
             index.append(lname)
 
@@ -209,6 +226,8 @@ LIT_FUNCS = {
 }
 
 INSTRUMENTS = ["avhrr", "avhrr_gac", "viirs", "amsua", "mhs", "hirs4", "atms", "mwhs2", "olci", "ascat", "slstr_nadir"]
+# C19: the wrappers that fix the scan points (literals only), and the seconds -> ns factor of ScanGeometry.__init__
+INSTRUMENT_WRAPPERS = ["avhrr_all_geom", "avhrr_edge_geom", "avhrr_40_geom", "viirs_edge_geom"]
 
 
 def gen_consts():
@@ -233,10 +252,23 @@ def gen_consts():
     for q in INSTRUMENTS:
         out.append("-- ---- instrument %s" % q)
         try:
-            function_locals(modname, src, tree, {}, q, out, index)
-            function_literals(modname, src, tree, {}, q, out, index)
+            function_locals(modname, src, tree, {}, q, out, index, nat=True)
+            function_literals(modname, src, tree, {}, q, out, index, nat=True)
         except ExtractError as e:
             out.append("-- EXTRACT-FAILED %s: %s" % (q, e))
+    for q in INSTRUMENT_WRAPPERS:
+        out.append("-- ---- instrument wrapper %s" % q)
+        try:
+            function_literals(modname, src, tree, {}, q, out, index, nat=True)
+        except ExtractError as e:
+            out.append("-- EXTRACT-FAILED %s: %s" % (q, e))
+    out.append("-- ---- geoloc.ScanGeometry.__init__ (seconds -> timedelta64[ns])")
+    try:
+        gpath = os.path.join(REPO, "pyorbital", "geoloc.py")
+        gsrc = open(gpath).read()
+        function_literals("instr", gsrc, ast.parse(gsrc), {}, "ScanGeometry.__init__", out, index, nat=True)
+    except ExtractError as e:
+        out.append("-- EXTRACT-FAILED ScanGeometry.__init__: %s" % e)
     out += ["", "end PV.Gen", ""]
     return "\n".join(out)
 
